@@ -38,6 +38,19 @@ func genPriorities(rng *rand.Rand) []uint {
 		return out
 	}
 	if rng.IntN(30) == 0 {
+		// many priorities (order-based dividers keep H small)
+		n := 6 + rng.IntN(7)
+		set := map[uint]bool{}
+		for len(set) < n {
+			set[uint(1+rng.IntN(60))] = true
+		}
+		for p := range set {
+			out = append(out, p)
+		}
+		sort.Slice(out, func(i, j int) bool { return out[i] > out[j] })
+		return out
+	}
+	if rng.IntN(30) == 0 {
 		// priority 0 is a legal map key: an order-based divider serves it like any other
 		out = []uint{uint(2 + rng.IntN(5)), 1, 0}[rng.IntN(2):]
 		return out
@@ -122,7 +135,7 @@ func genPrioScenario(rng *rand.Rand, g prioGen) PrioScenario {
 		if try > 30 {
 			prios = []uint{3, 2, 1}
 		}
-		if (prios[0] > 1<<40 || prios[len(prios)-1] == 0) && sc.Divider != "fair" && sc.Divider != "revfair" {
+		if (prios[0] > 1<<40 || prios[len(prios)-1] == 0 || len(prios) > 5) && sc.Divider != "fair" && sc.Divider != "revfair" {
 			// Rate / weight based dividers sum or scale the values: beyond 2^40 only the
 			// order-based dividers are meaningful
 			sc.Divider = []string{"fair", "revfair"}[rng.IntN(2)]
@@ -376,6 +389,18 @@ func genPrioScenario(rng *rand.Rand, g prioGen) PrioScenario {
 		present := map[uint]bool{}
 		for _, p := range prios {
 			present[p] = true
+		}
+		if rng.IntN(8) == 0 {
+			// the v1 discipline may be created without any input: everything is added later
+			var pre []POp
+			for _, in := range sc.Inputs {
+				pre = append(pre, POp{K: "add", P: in.P, Cap: in.Cap})
+				if in.Prefill > 0 {
+					pre = append(pre, POp{K: "W", P: in.P, N: in.Prefill})
+				}
+			}
+			sc.Inputs = nil
+			sc.Script = append(pre, sc.Script...)
 		}
 		var out []POp
 		nctl := min(2+rng.IntN(5), len(sc.Script)+1)
